@@ -312,6 +312,9 @@ func (s *subsetter) SubsetGsub(old *gtab.Info) *gtab.Info {
 						sNew.Repl = append(sNew.Repl, ligs)
 					}
 				}
+				if len(sNew.Cov) > 0 {
+					tNew.Subtables = append(tNew.Subtables, &sNew)
+				}
 			case *gtab.Gsub8_1:
 				panic("not implemented")
 			case *gtab.SeqContext1:
@@ -331,9 +334,9 @@ func (s *subsetter) SubsetGsub(old *gtab.Info) *gtab.Info {
 			}
 		}
 
-		if len(tNew.Subtables) > 0 {
-			res.LookupList = append(res.LookupList, tNew)
-		}
+		// Lookups are kept even when they have become empty, so that the
+		// lookup indices in the feature list stay valid.
+		res.LookupList = append(res.LookupList, tNew)
 	}
 
 	return &res
